@@ -858,10 +858,23 @@ fn public_part(args: &Args, report: &mut Report) {
                 let msg = e.to_string();
                 if listen.iter().any(|l| *l) {
                     p.violation("public:error-although-a-candidate-listens", format!("{case} -> {msg}"), case);
-                } else if n == 0 && !msg.contains("Exhausted connection candidates") {
-                    p.violation("public:empty-set-error-mapping", format!("{case} -> {msg}"), case);
-                } else if n > 0 && (msg.contains("timed out") || msg.contains("Exhausted")) {
-                    p.violation("public:refused-error-mapping", format!("{case} -> {msg} (expected the first connect failure)"), case);
+                } else if n > 0 {
+                    // every candidate refused: the error is the first failure observed, i.e. a refused connect.
+                    // Judged on the io::ErrorKind found in the source chain, never on the wording.
+                    let mut src: Option<&(dyn std::error::Error + 'static)> = Some(&e);
+                    let mut kind = None;
+                    while let Some(x) = src {
+                        if let Some(io) = x.downcast_ref::<std::io::Error>() {
+                            kind = Some(io.kind());
+                            break;
+                        }
+                        src = x.source();
+                    }
+                    match kind {
+                        Some(std::io::ErrorKind::TimedOut) => p.violation("public:timeout-reported-although-every-candidate-refused", format!("{case} -> {msg} (20 s deadline, every connect is refused at once)"), case),
+                        Some(_) => p.count("public_refused_error_kind_seen", 1),
+                        None => p.count("public_error_without_io_kind_not_judged", 1),
+                    }
                 }
             }
         }
